@@ -344,14 +344,7 @@ theorem forEach_run_pure (f : Id → DM Unit) (g : Id → DState → DState)
   | nil => intro s; rfl
   | cons x r ih => intro s; simp only [forEach, DomDoc.run_bind, hf, List.foldl_cons]; exact ih _
 
-theorem walk_run (n : Id) (s : DState) : (walk n).run s =
-    match elemsUnder s.heap n with
-    | some l => (s, .ok l)
-    | none => (s, .error .RecursionError) := by
-  unfold walk
-  simp only [DomDoc.run_bind_rd]
-  generalize elemsUnder s.heap n = o
-  cases o <;> rfl
+theorem walk_run (n : Id) (s : DState) : (walk n).run s = walkResult s n := rfl
 
 /-- `dropStyleEntry` as a function -/
 def dropStylePure (x : Id) (s : DState) : DState :=
@@ -453,6 +446,7 @@ theorem setOwnerRec_run (n : Id) (v : Bool) (s : DState) : (setOwnerRec n v).run
     | none => (s, .error .RecursionError) := by
   unfold setOwnerRec
   rw [DomDoc.run_bind, walk_run]
+  unfold walkResult
   generalize elemsUnder s.heap n = o
   cases o with
   | none => rfl
@@ -464,6 +458,7 @@ theorem removeFromCaches_run (n : Id) (s : DState) : (removeFromCaches n).run s 
     | none => (s, .error .RecursionError) := by
   unfold removeFromCaches
   rw [DomDoc.run_bind, walk_run]
+  unfold walkResult
   generalize elemsUnder s.heap n = o
   cases o with
   | none => rfl
@@ -475,6 +470,7 @@ theorem rebuildCaches_run (n : Id) (s : DState) : (rebuildCaches n).run s =
     | none => (s, .error .RecursionError) := by
   unfold rebuildCaches
   rw [DomDoc.run_bind, walk_run]
+  unfold walkResult
   generalize elemsUnder s.heap n = o
   cases o with
   | none => rfl
@@ -1543,6 +1539,199 @@ theorem docByType_exact {q : Nat} {s s' : DState} {l : List Id} (hG : Good s)
   rw [hl]
   exact ⟨hG'.2.2.nodup q, fun x hx => hG'.2.2.mem_iff q x hx⟩
 
+/-! ### __replaceGenerator (xml(), metaxml(), save()) -/
+
+/-- parent links after appending a DETACHED node -/
+theorem appendChild_parent_detached {p c : Id} {s s' : DState} {r : Except Err Unit}
+    (hkp : (s.heap p).kind = .elem) (hdet : (s.heap c).parent = none)
+    (hrun : (DomDoc.appendChild p c).run s = (s', r)) (hok : r = .ok ()) :
+    (∀ y, (s'.heap y).parent = if y = c then some p else (s.heap y).parent) ∧ s'.top = s.top := by
+  unfold DomDoc.appendChild at hrun
+  simp only [DomDoc.run_bind_rd] at hrun
+  simp only [hkp, ne_eq, not_true, if_false] at hrun
+  have hdrun : (DomDoc.detachIfAttached c).run s = (s, .ok ()) := by
+    unfold DomDoc.detachIfAttached
+    simp only [DomDoc.run_bind_rd, hdet]; rfl
+  rw [DomDoc.run_bind, hdrun] at hrun
+  simp only at hrun
+  rw [run_bind_liftH, appendRaw_run] at hrun
+  simp only at hrun
+  rw [run_bind_liftH, Dom.run_upd] at hrun
+  simp only at hrun
+  rcases childAttached_view hrun with hrec | ⟨_, l, _, hs, ht, _, _⟩
+  · rw [hok] at hrec; cases hrec
+  · refine ⟨fun y => ?_, ht⟩
+    have h1 : (s'.heap y).parent = ((setNext (appRawHeap s.heap p c) c none) y).parent := (hs y).2.1
+    rw [h1, app_parent]
+
+theorem att_after_attach {s s' : DState} {c p : Id} (hdet : (s.heap c).parent = none) (hct : c ≠ s.top)
+    (htop : s'.top = s.top)
+    (hpar : ∀ y, (s'.heap y).parent = if y = c then some p else (s.heap y).parent) {x : Id} (ha : Att s x) :
+    Att s' x := by
+  unfold Att at ha ⊢; rw [htop]
+  induction ha with
+  | refl => exact AncOrSelf.refl
+  | @step x q hpx _ ih =>
+    have hxc : x ≠ c := by intro e; rw [e, hdet] at hpx; cases hpx
+    exact AncOrSelf.step (by rw [hpar]; simp [hxc, hpx]) ih
+
+theorem att_after_remove {s : DState} {p c x : Id} (hA : Acyclic s.heap) (hpc : (s.heap c).parent = some p)
+    (ha : Att s x) (hnx : ¬ AncOrSelf s.heap c x) : AncOrSelf (rmHeap s.heap p c) s.top x := by
+  induction ha with
+  | refl => exact AncOrSelf.refl
+  | @step x q hpx _ ih =>
+    have hxc : x ≠ c := fun e => hnx (e ▸ AncOrSelf.refl)
+    have hpx' : (rmHeap s.heap p c x).parent = some q := by rw [rmHeap_parent]; simp [hxc, hpx]
+    exact AncOrSelf.step hpx' (ih (fun hq => hnx (AncOrSelf.step hpx hq)))
+
+/-- the loop invariant of `__replaceGenerator` -/
+def RG (mt g t : Id) (top : Id) (s : DState) : Prop :=
+  Good s ∧ Att s mt ∧ Blank s.heap g ∧ Blank s.heap t ∧ s.top = top ∧ (s.heap mt).kind = .elem
+
+theorem forEach_inv (P : DState → Prop) (f : Id → DM Unit)
+    (hstep : ∀ x s s' r, P s → (f x).run s = (s', r) → r ≠ .error .RecursionError → P s') :
+    ∀ (l : List Id) (s s' : DState) (r : Except Err Unit), P s → (forEach f l).run s = (s', r) →
+      r ≠ .error .RecursionError → P s' := by
+  intro l
+  induction l with
+  | nil => intro s s' r hP hrun _; cases hrun; exact hP
+  | cons x rest ih =>
+    intro s s' r hP hrun hr
+    simp only [forEach] at hrun
+    rw [DomDoc.run_bind] at hrun
+    rcases hx : (f x).run s with ⟨s1, r1⟩
+    rw [hx] at hrun
+    cases r1 with
+    | error e => simp only at hrun; cases hrun; exact hstep x s _ _ hP hx hr
+    | ok u => simp only at hrun; exact ih s1 s' r (hstep x s s1 _ hP hx (by intro h; cases h)) hrun hr
+
+theorem rg_remove_step {mt g t top : Id} (hgm : g ≠ mt) (htm : t ≠ mt) {m : Id} {s s' : DState}
+    {r : Except Err Unit} (hP : RG mt g t top s)
+    (hrun : (do
+      if (← rdD fun s => decide ((s.heap m).kind = .elem) && decide ((s.heap m).qn = QN_GENERATOR)) then
+        DomDoc.removeChild mt m : DM Unit).run s = (s', r)) (hr : r ≠ .error .RecursionError) :
+    RG mt g t top s' := by
+  obtain ⟨hG, hatt, hbg, hbt, htop, hmk⟩ := hP
+  simp only [DomDoc.run_bind_rd] at hrun
+  split at hrun
+  · have hG' := removeChild_good hG hrun hr
+    rcases removeChild_view hrun hG.2.2.nodup with ⟨e, _⟩ | hrec | ⟨_, ⟨_, hc⟩, l, _, hh, ht, _⟩
+    · rw [e]; exact ⟨hG, hatt, hbg, hbt, htop, hmk⟩
+    · exact absurd hrec hr
+    · have hpm : (s.heap m).parent = some mt := (hG.1.parent_iff mt m).mp hc
+      have hnm : ¬ AncOrSelf s.heap m mt := by
+        intro ha
+        obtain ⟨d, hd⟩ := hG.2.1
+        have := anc_depth hd ha
+        have := hd m mt hpm
+        omega
+      refine ⟨hG', ?_, ?_, ?_, ht.trans htop, by rw [hh, rmHeap_kind]; exact hmk⟩
+      · unfold Att; rw [hh, ht]; exact att_after_remove hG.2.1 hpm hatt hnm
+      · rw [hh]; constructor
+        · rw [rmHeap_parent]; split
+          · rfl
+          · exact hbg.1
+        · rw [rmHeap_kids]; simp [hgm, hbg.2]
+      · rw [hh]; constructor
+        · rw [rmHeap_parent]; split
+          · rfl
+          · exact hbt.1
+        · rw [rmHeap_kids]; simp [htm, hbt.2]
+  · rw [DomDoc.run_pure] at hrun; cases hrun; exact ⟨hG, hatt, hbg, hbt, htop, hmk⟩
+
+/-- **C09 / C12 (render ops)**: `__replaceGenerator()` — run by `xml()`, `metaxml()` and `save()`:
+    every meta:generator child of the (attached) office:meta element is removed, a new generator
+    with its text is built and added — keeps index and ownerDocument coherent.  `g`, `t` are the
+    new objects (unused ids, distinct from each other, from `meta` and from the top node). -/
+theorem replaceGenerator_good {mt g t : Id} {s s' : DState} {r : Except Err Unit} (hG : Good s)
+    (hatt : Att s mt) (hmk : (s.heap mt).kind = .elem) (hbg : Blank s.heap g) (hbt : Blank s.heap t)
+    (hgt : g ≠ t) (hgm : g ≠ mt) (htm : t ≠ mt) (hgtop : g ≠ s.top) (httop : t ≠ s.top)
+    (hrun : (replaceGenerator mt g t).run s = (s', r)) (hr : r ≠ .error .RecursionError) : Good s' := by
+  unfold replaceGenerator at hrun
+  simp only [DomDoc.run_bind_rd] at hrun
+  rw [DomDoc.run_bind] at hrun
+  rcases hloop : (forEach (fun m => do
+      if (← rdD fun s => decide ((s.heap m).kind = .elem) && decide ((s.heap m).qn = QN_GENERATOR)) then
+        DomDoc.removeChild mt m : Id → DM Unit) (s.heap mt).kids).run s with ⟨s1, r1⟩
+  rw [hloop] at hrun
+  have hRG0 : RG mt g t s.top s := ⟨hG, hatt, hbg, hbt, rfl, hmk⟩
+  cases r1 with
+  | error e =>
+    simp only at hrun; cases hrun
+    exact (forEach_inv (RG mt g t s.top) _ (fun m s s' r hP hrun hr => rg_remove_step hgm htm hP hrun hr)
+      _ _ _ _ hRG0 hloop hr).1
+  | ok u =>
+    obtain ⟨hG1, hatt1, hbg1, hbt1, htop1, hmk1⟩ := forEach_inv (RG mt g t s.top) _
+      (fun m s s' r hP hrun hr => rg_remove_step hgm htm hP hrun hr) _ _ _ _ hRG0 hloop (by intro h; cases h)
+    simp only at hrun
+    rw [run_bind_liftH, initNode_run] at hrun
+    simp only at hrun
+    -- the new generator element g
+    have hG2 := initNode_good hG1 hbg1 (by rw [htop1]; exact hgtop) .elem QN_GENERATOR
+    generalize hs2 : ({ s1 with heap := s1.heap.set g { kind := .elem, qn := QN_GENERATOR } } : DState) = s2 at hrun hG2
+    have hh2 : s2.heap = s1.heap.set g { kind := .elem, qn := QN_GENERATOR } := by rw [← hs2]
+    have ht2 : s2.top = s.top := by rw [← hs2]; exact htop1
+    have hpar2 : ∀ y, (s2.heap y).parent = (s1.heap y).parent := by
+      intro y; rw [hh2, Heap.set_apply]; split
+      · rename_i e; subst e; exact hbg1.1.symm
+      · rfl
+    have hatt2 : Att s2 mt := (att_congr (ht2.trans htop1.symm) hpar2 mt).mpr hatt1
+    have hbt2 : Blank s2.heap t := by
+      rw [hh2]; unfold Blank; rw [Heap.set_other _ _ _ _ (Ne.symm hgt)]; exact hbt1
+    have hkg2 : (s2.heap g).kind = .elem := by rw [hh2]; simp
+    have hpg2 : (s2.heap g).parent = none := by rw [hh2]; simp
+    have hmk2 : (s2.heap mt).kind = .elem := by
+      rw [hh2, Heap.set_other _ _ _ _ (Ne.symm hgm)]; exact hmk1
+    -- its text node t
+    rw [DomDoc.run_bind] at hrun
+    rcases hat : (DomDoc.addText g t true true).run s2 with ⟨s3, r3⟩
+    rw [hat] at hrun
+    have hG3 : r3 ≠ .error .RecursionError → Good s3 := fun h3 =>
+      addText_good hG2 hbt2 (Ne.symm hgt) (by rw [ht2]; exact httop) hat h3
+    cases r3 with
+    | error e =>
+      simp only at hrun; cases hrun; exact hG3 hr
+    | ok u =>
+      simp only at hrun
+      have hG3' := hG3 (by intro h; cases h)
+      have hat' : (DomDoc.appendChild g t).run { s2 with heap := s2.heap.set t { kind := .text, qn := 0 } }
+          = (s3, .ok ()) := by
+        unfold DomDoc.addText at hat
+        simp only [Bool.not_true, Bool.false_eq_true, if_false, if_true, DomDoc.run_bind_pure] at hat
+        rw [run_bind_liftH, initNode_run] at hat
+        exact hat
+      have hpar3a : ∀ y, ((s2.heap.set t { kind := .text, qn := 0 }) y).parent = (s2.heap y).parent := by
+        intro y; rw [Heap.set_apply]; split
+        · rename_i e; subst e; exact hbt2.1.symm
+        · rfl
+      obtain ⟨hpar3, htop3⟩ := appendChild_parent_detached
+        (s := { s2 with heap := s2.heap.set t { kind := .text, qn := 0 } }) (p := g) (c := t)
+        (by show ((s2.heap.set t { kind := .text, qn := 0 }) g).kind = .elem
+            rw [Heap.set_other _ _ _ _ hgt]; exact hkg2)
+        (by show ((s2.heap.set t { kind := .text, qn := 0 }) t).parent = none
+            simp) hat' rfl
+      have hatt3a : Att { s2 with heap := s2.heap.set t { kind := .text, qn := 0 } } mt :=
+        (att_congr (s := s2) (s' := { s2 with heap := s2.heap.set t { kind := .text, qn := 0 } }) rfl hpar3a mt).mpr hatt2
+      have hatt3 : Att s3 mt :=
+        att_after_attach (s := { s2 with heap := s2.heap.set t { kind := .text, qn := 0 } })
+          (by show ((s2.heap.set t { kind := .text, qn := 0 }) t).parent = none
+              simp)
+          (by show t ≠ s2.top
+              rw [ht2]; exact httop) htop3 hpar3 hatt3a
+      have hpg3 : (s3.heap g).parent = none := by
+        rw [hpar3]; simp only [hgt, if_false]
+        show ((s2.heap.set t { kind := .text, qn := 0 }) g).parent = none
+        rw [hpar3a]; exact hpg2
+      have htop3' : s3.top = s.top := htop3.trans ht2
+      have hgtop3 : g ≠ s3.top := by rw [htop3']; exact hgtop
+      unfold DomDoc.addElement at hrun
+      simp only [Bool.not_true, Bool.false_eq_true, if_false, DomDoc.run_bind_pure] at hrun
+      refine appendChild_good hG3' ?_ hgtop3 hrun hr
+      intro ha
+      rcases anc_chain ha hatt3 with h1 | h1
+      · exact hgtop3 (anc_of_no_parent hG3'.2.2.top_root h1).symm
+      · exact hgtop3 (anc_of_no_parent hpg3 h1)
+
 /-! ### a fresh document -/
 
 /-- `OpenDocument.__init__` up to `clear_caches()`: a childless top node `0` of qname `q`, owned by
@@ -1608,7 +1797,7 @@ def OpOk (s : DState) : DOp → Prop
   | .mkDoc _ => False
   | .byType _ => True
   | .styleByName _ => True
-  | .replaceGenerator _ _ _ => False      -- see `replaceGenerator_good`
+  | .replaceGenerator mt g t => Att s mt ∧ (s.heap mt).kind = .elem ∧ g ≠ t ∧ g ≠ mt ∧ t ≠ mt ∧ g ≠ s.top ∧ t ≠ s.top
 
 theorem liftH_fresh_run (i : Id) (s : DState) :
     (liftH (fresh i)).run s = if Blank s.heap i then (s, .ok ()) else (s, .error .Other) := by
@@ -1622,7 +1811,18 @@ theorem coherent_step_partial {s s' : DState} {op : DOp} {r : Except Err Unit} (
     (hrun : (stepD op).run s = (s', r)) (hr : r ≠ .error .RecursionError) : Good s' := by
   cases op with
   | mkDoc t => exact absurd hok id
-  | replaceGenerator m g t => exact absurd hok id
+  | replaceGenerator m g t =>
+    obtain ⟨hatt, hmk, hgt, hgm, htm, hgtop, httop⟩ := hok
+    simp only [stepD] at hrun
+    rw [DomDoc.run_bind, liftH_fresh_run] at hrun
+    by_cases hbg : Blank s.heap g
+    · simp only [hbg, if_true] at hrun
+      rw [DomDoc.run_bind, liftH_fresh_run] at hrun
+      by_cases hbt : Blank s.heap t
+      · simp only [hbt, if_true] at hrun
+        exact replaceGenerator_good hG hatt hmk hbg hbt hgt hgm htm hgtop httop hrun hr
+      · simp only [hbt, if_false] at hrun; cases hrun; exact hG
+    · simp only [hbg, if_false] at hrun; cases hrun; exact hG
   | byType q =>
     simp only [stepD] at hrun
     rw [DomDoc.run_bind] at hrun
